@@ -203,7 +203,7 @@ def run_concmon(prop, tier, t0):
                                'writers only store (never delete), values are unique per write, so every read is '
                                'attributable; wall-clock never decides a verdict (watchdog expiry = dropped schedule, counted)',
                            ], required_counters=['c14_schedules_gated', 'c14_schedules_free', 'c14_overlapping_op_pairs',
-                                                 'c14_gate_grants', 'c14_forked_handle_runs'])
+                                                 'c14_gate_grants', 'c14_forked_handle_runs', 'c14_idle_reader_runs'])
 
 
 ENGINES = {'C14': run_concmon, 'C13': run_crashmon, 'C19': run_valmon, 'C03': run_archmon, 'C08': run_archmon, 'C04': run_procmon, 'C17': run_procmon}
